@@ -606,8 +606,10 @@ class TOCSchemas:
     ):
         if parents is None:  # remove schema
             for parent in self._parents[schema_ref]:
+                if parent != schema_ref:
+                    self._children[parent].discard(schema_ref)
                 if parent in self._schemas:
-                    self._children[parent].remove(schema_ref)
+                    continue
                 elif all(
                     (child not in self._schemas for child in self._children[parent])
                 ):
